@@ -1058,6 +1058,58 @@ func main() {
 	for k := 0; k < 9; k++ {
 		addRegex(fmt.Sprintf("verif_lvl_%d", k), fmt.Sprintf(`(?im)^[a-z0-9.\-@/:]{1,32}\(l%d\)[#>]$`, k))
 	}
+	// ---- mergeVariant: the statement list of Platform.mergeVariant as (guard field, assigned field,
+	// source field) triples: `if <test on v.G> { p.A = v.S }`.  Anything else in the body is emitted
+	// as the triple ("?","?","?") so that the structure theorem fails rather than ignoring it.
+	{
+		mv := funcDecl("platform/definition.go", "Platform.mergeVariant")
+		if mv == nil {
+			die("Platform.mergeVariant missing")
+		}
+		recv, arg := "p", "v"
+		if mv.Recv != nil && len(mv.Recv.List) == 1 && len(mv.Recv.List[0].Names) == 1 {
+			recv = mv.Recv.List[0].Names[0].Name
+		}
+		if mv.Type.Params != nil && len(mv.Type.Params.List) == 1 && len(mv.Type.Params.List[0].Names) == 1 {
+			arg = mv.Type.Params.List[0].Names[0].Name
+		}
+		selOf := func(e ast.Expr, base string) string {
+			// the field F of `base.F`, looking through len(...) and comparisons
+			var f string
+			ast.Inspect(e, func(n ast.Node) bool {
+				if se, ok := n.(*ast.SelectorExpr); ok {
+					if id, ok := se.X.(*ast.Ident); ok && id.Name == base && f == "" {
+						f = se.Sel.Name
+					}
+				}
+				return true
+			})
+			return f
+		}
+		var triples []string
+		for _, st := range mv.Body.List {
+			g, a, src := "?", "?", "?"
+			if is, ok := st.(*ast.IfStmt); ok && is.Init == nil && is.Else == nil && len(is.Body.List) == 1 {
+				if as, ok := is.Body.List[0].(*ast.AssignStmt); ok && len(as.Lhs) == 1 && len(as.Rhs) == 1 && as.Tok == token.ASSIGN {
+					if x := selOf(is.Cond, arg); x != "" {
+						g = x
+					}
+					if l, ok := as.Lhs[0].(*ast.SelectorExpr); ok {
+						if id, ok := l.X.(*ast.Ident); ok && id.Name == recv {
+							a = l.Sel.Name
+						}
+					}
+					if r, ok := as.Rhs[0].(*ast.SelectorExpr); ok {
+						if id, ok := r.X.(*ast.Ident); ok && id.Name == arg {
+							src = r.Sel.Name
+						}
+					}
+				}
+			}
+			triples = append(triples, fmt.Sprintf("(%s, %s, %s)", coqBytes(g), coqBytes(a), coqBytes(src)))
+		}
+		p("Definition merge_variant_clauses : list (bytes * bytes * bytes) := [%s].", strings.Join(triples, "; "))
+	}
 	// ---- platform names
 	g := load("platform/definition.go")
 	fd := funcDecl("platform/definition.go", "GetPlatformNames")
